@@ -106,13 +106,14 @@ def sh(cmd, timeout=600, cwd=None, env=None, input=None, check=False):
 
 
 class Lock:
-    def __init__(self, name):
+    def __init__(self, name, shared=False):
         os.makedirs(SCRATCH_ROOT, exist_ok=True)
         self.path = os.path.join(VERIF, ".lock." + name)
+        self.shared = shared
 
     def __enter__(self):
-        self.f = open(self.path, "w")
-        fcntl.flock(self.f, fcntl.LOCK_EX)
+        self.f = open(self.path, "a")
+        fcntl.flock(self.f, fcntl.LOCK_SH if self.shared else fcntl.LOCK_EX)
         return self
 
     def __exit__(self, *a):
@@ -206,7 +207,8 @@ def check_proofs(ctx, pid=None, extra_targets=()):
         f.write("From GPA Require Import %s.\n" % pid)
         for t in thms:
             f.write('Goal True. idtac "@@THM %s". Abort.\nPrint Assumptions %s.\n' % (t, t))
-    rc, out, err = sh(["coqc", "-noglob", "-Q", COQ, "GPA", probe], timeout=300)
+    with Lock("coq", shared=True):
+        rc, out, err = sh(["coqc", "-noglob", "-Q", COQ, "GPA", probe], timeout=900)
     if rc != 0:
         return False, "assumption probe failed: " + (out + err)[-1500:]
     allow = allowlist()
@@ -405,8 +407,11 @@ def coq_eval(ctx, requires, exprs, prelude="", shard=200, timeout=600, name="cas
             raise RuntimeError("coqc output count mismatch %d vs %d" % (len(res), len(sh_exprs)))
         return res
 
-    with ThreadPoolExecutor(max_workers=min(16, len(shards))) as ex:
-        chunks = list(ex.map(run, enumerate(shards)))
+    # readers of the compiled .vo files hold the Coq lock in shared mode, so that a concurrent
+    # check rebuilding the development (exclusive) cannot make them see inconsistent objects
+    with Lock("coq", shared=True):
+        with ThreadPoolExecutor(max_workers=min(int(os.environ.get("VERIF_COQ_JOBS", "8")), len(shards))) as ex:
+            chunks = list(ex.map(run, enumerate(shards)))
     return [r for c in chunks for r in c]
 
 
